@@ -1,6 +1,7 @@
 package main
 
 import (
+	"go/token"
 	"fmt"
 	"go/constant"
 	"go/types"
@@ -513,4 +514,131 @@ func hasCtxParam(fn *ssa.Function) bool {
 		}
 	}
 	return false
+}
+
+// findConstGlobals: a package-level variable of /repo with a basic type that is assigned exactly once - in its
+// package initialiser, with a constant or with the result of a parameterless /repo function whose body is
+// "return <constant>" - and whose address is used for nothing but loads, has that constant value in every state.
+// Derived from the code on every run (no assumption); used e.g. for subprocess.lineSep.
+func (ex *Exec) findConstGlobals() {
+	type use struct {
+		stores int
+		other  bool
+		val    *ssa.Const
+	}
+	uses := map[*ssa.Global]*use{}
+	get := func(g *ssa.Global) *use {
+		u := uses[g]
+		if u == nil {
+			u = &use{}
+			uses[g] = u
+		}
+		return u
+	}
+	var constOf func(v ssa.Value, depth int) *ssa.Const
+	constOf = func(v ssa.Value, depth int) *ssa.Const {
+		if depth > 3 {
+			return nil
+		}
+		switch x := v.(type) {
+		case *ssa.Const:
+			return x
+		case *ssa.Call:
+			sc := x.Call.StaticCallee()
+			if sc == nil || !isRepoFunc(sc) || len(sc.Params) != 0 || len(sc.Blocks) != 1 {
+				return nil
+			}
+			// NaiveForm routes the result through a cell and sets up a defer stack: accept a single block whose only
+			// effect is to store ONE constant into a local cell that is then returned
+			var stored *ssa.Const
+			n := 0
+			for _, ins := range sc.Blocks[0].Instrs {
+				switch r := ins.(type) {
+				case *ssa.Alloc, *ssa.RunDefers, *ssa.DebugRef, *ssa.UnOp:
+				case *ssa.Call:
+					if r.Call.Value.Name() != "ssa:deferstack" {
+						return nil
+					}
+				case *ssa.Store:
+					if k, ok := r.Val.(*ssa.Const); ok {
+						stored = k
+						n++
+					} else if c, ok := r.Val.(*ssa.Call); !ok || c.Call.Value.Name() != "ssa:deferstack" {
+						return nil
+					}
+				case *ssa.Return:
+					if len(r.Results) != 1 {
+						return nil
+					}
+					if k, ok := r.Results[0].(*ssa.Const); ok {
+						return k
+					}
+				default:
+					return nil
+				}
+			}
+			if n == 1 {
+				return stored
+			}
+		}
+		return nil
+	}
+	for fn := range ssautil.AllFunctions(ex.prog) {
+		if !isRepoFunc(fn) {
+			continue
+		}
+		isInit := fn.Name() == "init" && fn.Synthetic != ""
+		for _, b := range fn.Blocks {
+			for _, ins := range b.Instrs {
+				if s, ok := ins.(*ssa.Store); ok {
+					if g, ok := s.Addr.(*ssa.Global); ok {
+						u := get(g)
+						u.stores++
+						if isInit {
+							u.val = constOf(s.Val, 0)
+						} else {
+							u.other = true
+						}
+						// the stored value may itself mention another global
+						if g2, ok := s.Val.(*ssa.Global); ok {
+							get(g2).other = true
+						}
+						continue
+					}
+				}
+				if uo, ok := ins.(*ssa.UnOp); ok && uo.Op == token.MUL {
+					if _, ok := uo.X.(*ssa.Global); ok {
+						continue // a load
+					}
+				}
+				if _, ok := ins.(*ssa.DebugRef); ok {
+					continue
+				}
+				var ops []*ssa.Value
+				for _, op := range ins.Operands(ops) {
+					if op != nil && *op != nil {
+						if g, ok := (*op).(*ssa.Global); ok {
+							get(g).other = true // address escapes or is written through
+						}
+					}
+				}
+			}
+		}
+	}
+	for g, u := range uses {
+		if u.other || u.stores != 1 || u.val == nil || g.Pkg == nil || strings.Contains(g.Name(), "$") {
+			continue
+		}
+		if _, ok := derefType(g.Type()).Underlying().(*types.Basic); !ok {
+			continue
+		}
+		if _, isSent := ex.sentinels[g]; isSent {
+			continue
+		}
+		ex.constGlobals[g] = ex.constVal(u.val)
+		if os.Getenv("GOVC_DEBUG") != "" {
+			fmt.Fprintf(os.Stderr, "const global %s.%s = %s\n", g.Pkg.Pkg.Name(), g.Name(), u.val.Value.ExactString())
+		}
+		ex.derivedFacts = append(ex.derivedFacts, fmt.Sprintf("package variable %s.%s is assigned once, by its initialiser, the constant %s", g.Pkg.Pkg.Name(), g.Name(), u.val.Value.ExactString()))
+	}
 }
